@@ -1,0 +1,739 @@
+/*
+ * Verification facade.  Compiled only with the `verif` cargo feature.
+ *
+ * This module contains no protocol logic.  It re-exposes crate-private entry points (protocol
+ * engine, client state machine, encoder, decoder, validation) through neutral public types so that
+ * an external property-based test harness can drive them exactly the way the network drivers do.
+ */
+
+#![allow(missing_docs)]
+
+use crate::alias::*;
+use crate::client::*;
+use crate::client::config::*;
+use crate::decode::*;
+use crate::encode::*;
+use crate::error::{GneissError, GneissResult};
+use crate::mqtt::*;
+use crate::protocol::*;
+use crate::validate::*;
+
+use std::collections::VecDeque;
+use std::sync::{Arc, Mutex};
+use std::time::{Duration, Instant};
+
+// ------------------------------------------------------------------------------------------------
+// accessors for crate-private fields of public packet types
+// ------------------------------------------------------------------------------------------------
+
+pub fn publish_packet_id(p: &PublishPacket) -> u16 { p.packet_id }
+pub fn publish_topic_alias(p: &PublishPacket) -> Option<u16> { p.topic_alias }
+pub fn puback_packet_id(p: &PubackPacket) -> u16 { p.packet_id }
+pub fn pubrec_packet_id(p: &PubrecPacket) -> u16 { p.packet_id }
+pub fn pubrel_packet_id(p: &PubrelPacket) -> u16 { p.packet_id }
+pub fn pubcomp_packet_id(p: &PubcompPacket) -> u16 { p.packet_id }
+pub fn suback_packet_id(p: &SubackPacket) -> u16 { p.packet_id }
+pub fn unsuback_packet_id(p: &UnsubackPacket) -> u16 { p.packet_id }
+
+/// The public publish builder cannot set a topic alias, yet the manual outbound resolver consumes one.
+pub fn publish_with_alias(mut p: PublishPacket, alias: Option<u16>) -> PublishPacket {
+    p.topic_alias = alias;
+    p
+}
+
+#[derive(Clone, Debug)]
+pub struct ConnectOptionsView {
+    pub keep_alive_interval_seconds: Option<u16>,
+    pub rejoin_session_policy: RejoinSessionPolicy,
+    pub client_id: Option<String>,
+    pub username: Option<String>,
+    pub password: Option<Vec<u8>>,
+    pub session_expiry_interval_seconds: Option<u32>,
+    pub request_response_information: Option<bool>,
+    pub request_problem_information: Option<bool>,
+    pub receive_maximum: Option<u16>,
+    pub topic_alias_maximum: Option<u16>,
+    pub maximum_packet_size_bytes: Option<u32>,
+    pub will_delay_interval_seconds: Option<u32>,
+    pub will: Option<PublishPacket>,
+    pub user_properties: Option<Vec<UserProperty>>,
+}
+
+pub fn connect_options_view(o: &ConnectOptions) -> ConnectOptionsView {
+    ConnectOptionsView {
+        keep_alive_interval_seconds: o.keep_alive_interval_seconds,
+        rejoin_session_policy: o.rejoin_session_policy,
+        client_id: o.client_id.clone(),
+        username: o.username.clone(),
+        password: o.password.clone(),
+        session_expiry_interval_seconds: o.session_expiry_interval_seconds,
+        request_response_information: o.request_response_information,
+        request_problem_information: o.request_problem_information,
+        receive_maximum: o.receive_maximum,
+        topic_alias_maximum: o.topic_alias_maximum,
+        maximum_packet_size_bytes: o.maximum_packet_size_bytes,
+        will_delay_interval_seconds: o.will_delay_interval_seconds,
+        will: o.will.clone(),
+        user_properties: o.user_properties.clone(),
+    }
+}
+
+#[derive(Clone, Debug)]
+pub struct ClientOptionsView {
+    pub offline_queue_policy: OfflineQueuePolicy,
+    pub connect_timeout: Duration,
+    pub ping_timeout: Duration,
+    pub has_outbound_alias_resolver_factory: bool,
+    pub reconnect_period_jitter: ExponentialBackoffJitterType,
+    pub base_reconnect_period: Duration,
+    pub max_reconnect_period: Duration,
+    pub reconnect_stability_reset_period: Duration,
+    pub protocol_mode: ProtocolMode,
+    pub post_reconnect_queue_drain_policy: Option<PostReconnectQueueDrainPolicy>,
+    pub max_interrupted_retries: Option<u32>,
+}
+
+pub fn client_options_view(o: &MqttClientOptions) -> ClientOptionsView {
+    ClientOptionsView {
+        offline_queue_policy: o.offline_queue_policy,
+        connect_timeout: o.connect_timeout,
+        ping_timeout: o.ping_timeout,
+        has_outbound_alias_resolver_factory: o.outbound_alias_resolver_factory.is_some(),
+        reconnect_period_jitter: o.reconnect_options.reconnect_period_jitter,
+        base_reconnect_period: o.reconnect_options.base_reconnect_period,
+        max_reconnect_period: o.reconnect_options.max_reconnect_period,
+        reconnect_stability_reset_period: o.reconnect_options.reconnect_stability_reset_period,
+        protocol_mode: o.protocol_mode,
+        post_reconnect_queue_drain_policy: o.post_reconnect_queue_drain_policy,
+        max_interrupted_retries: o.max_interrupted_retries,
+    }
+}
+
+// ------------------------------------------------------------------------------------------------
+// codec facade
+// ------------------------------------------------------------------------------------------------
+
+/// Packets a client can emit.
+#[derive(Clone, Debug)]
+pub enum OutPacket {
+    Connect { options: ConnectOptions, connected_previously: bool },
+    Publish(PublishPacket),
+    Subscribe(SubscribePacket),
+    Unsubscribe(UnsubscribePacket),
+    Disconnect(DisconnectPacket),
+    Puback(u16),
+    Pubrec(u16),
+    Pubrel(u16),
+    Pubcomp(u16),
+    Pingreq,
+}
+
+fn out_packet_to_mqtt(packet: &OutPacket, packet_id: u16, duplicate: bool) -> MqttPacket {
+    match packet {
+        OutPacket::Connect { options, connected_previously } => {
+            MqttPacket::Connect(options.to_connect_packet(*connected_previously))
+        }
+        OutPacket::Publish(p) => {
+            let mut p = p.clone();
+            p.packet_id = packet_id;
+            p.duplicate = duplicate;
+            MqttPacket::Publish(p)
+        }
+        OutPacket::Subscribe(p) => {
+            let mut p = p.clone();
+            p.packet_id = packet_id;
+            MqttPacket::Subscribe(p)
+        }
+        OutPacket::Unsubscribe(p) => {
+            let mut p = p.clone();
+            p.packet_id = packet_id;
+            MqttPacket::Unsubscribe(p)
+        }
+        OutPacket::Disconnect(p) => { MqttPacket::Disconnect(p.clone()) }
+        OutPacket::Puback(id) => { MqttPacket::Puback(PubackPacket { packet_id: *id, ..Default::default() }) }
+        OutPacket::Pubrec(id) => { MqttPacket::Pubrec(PubrecPacket { packet_id: *id, ..Default::default() }) }
+        OutPacket::Pubrel(id) => { MqttPacket::Pubrel(PubrelPacket { packet_id: *id, ..Default::default() }) }
+        OutPacket::Pubcomp(id) => { MqttPacket::Pubcomp(PubcompPacket { packet_id: *id, ..Default::default() }) }
+        OutPacket::Pingreq => { MqttPacket::Pingreq(PingreqPacket {}) }
+    }
+}
+
+/// Encodes one packet the way the protocol engine does: `Encoder::reset` once, then `Encoder::encode`
+/// repeatedly, each call being offered `space[i]` free bytes (the last entry repeats).  Returns the
+/// concatenated bytes and the number of encode calls.
+pub fn encode_packet(packet: &OutPacket, packet_id: u16, duplicate: bool, mode: ProtocolMode, skip_topic: bool, alias: Option<u16>, space: &[usize]) -> GneissResult<(Vec<u8>, usize)> {
+    let mqtt_packet = out_packet_to_mqtt(packet, packet_id, duplicate);
+    let context = EncodingContext {
+        outbound_alias_resolution: OutboundAliasResolution { skip_topic, alias },
+        protocol_version: convert_protocol_mode_to_protocol_version(mode),
+    };
+
+    let mut encoder = Encoder::new();
+    encoder.reset(&mqtt_packet, &context)?;
+
+    let mut result = Vec::new();
+    let mut calls = 0usize;
+    loop {
+        let free = if space.is_empty() { 4096 } else { space[usize::min(calls, space.len() - 1)] };
+        let mut buffer: Vec<u8> = Vec::with_capacity(free);
+        let encode_result = encoder.encode(&mqtt_packet, &mut buffer)?;
+        calls += 1;
+        result.extend_from_slice(&buffer);
+        if encode_result == EncodeResult::Complete {
+            return Ok((result, calls));
+        }
+    }
+}
+
+/// Same validation the public client handles apply synchronously on submission.
+pub fn validate_outbound(packet: &OutPacket) -> GneissResult<()> {
+    match packet {
+        OutPacket::Disconnect(d) => { crate::mqtt::disconnect::validate_disconnect_packet_outbound(d) }
+        _ => { validate_packet_outbound(&out_packet_to_mqtt(packet, 0, false)) }
+    }
+}
+
+#[derive(Clone, Debug, Eq, PartialEq)]
+pub struct AuthView {
+    pub reason_code: u8,
+    pub authentication_method: Option<String>,
+    pub authentication_data: Option<Vec<u8>>,
+    pub reason_string: Option<String>,
+    pub user_properties: Option<Vec<UserProperty>>,
+}
+
+/// Packets the decoder can produce.
+#[derive(Clone, Debug, Eq, PartialEq)]
+pub enum InPacket {
+    Connack(ConnackPacket),
+    Publish(PublishPacket),
+    Puback(PubackPacket),
+    Pubrec(PubrecPacket),
+    Pubrel(PubrelPacket),
+    Pubcomp(PubcompPacket),
+    Suback(SubackPacket),
+    Unsuback(UnsubackPacket),
+    Pingresp,
+    Disconnect(DisconnectPacket),
+    Auth(AuthView),
+    Other(String),
+}
+
+fn mqtt_to_in_packet(packet: MqttPacket) -> InPacket {
+    match packet {
+        MqttPacket::Connack(p) => InPacket::Connack(p),
+        MqttPacket::Publish(p) => InPacket::Publish(p),
+        MqttPacket::Puback(p) => InPacket::Puback(p),
+        MqttPacket::Pubrec(p) => InPacket::Pubrec(p),
+        MqttPacket::Pubrel(p) => InPacket::Pubrel(p),
+        MqttPacket::Pubcomp(p) => InPacket::Pubcomp(p),
+        MqttPacket::Suback(p) => InPacket::Suback(p),
+        MqttPacket::Unsuback(p) => InPacket::Unsuback(p),
+        MqttPacket::Pingresp(_) => InPacket::Pingresp,
+        MqttPacket::Disconnect(p) => InPacket::Disconnect(p),
+        MqttPacket::Auth(p) => InPacket::Auth(AuthView {
+            reason_code: p.reason_code as u8,
+            authentication_method: p.authentication_method,
+            authentication_data: p.authentication_data,
+            reason_string: p.reason_string,
+            user_properties: p.user_properties,
+        }),
+        other => InPacket::Other(format!("{}", crate::mqtt::utils::mqtt_packet_to_packet_type(&other))),
+    }
+}
+
+pub struct DecodeOutcome {
+    /// every packet completed before the error (or all of them)
+    pub packets: Vec<InPacket>,
+    /// the first error, with the index of the chunk whose delivery returned it
+    pub error: Option<(GneissError, usize)>,
+}
+
+/// Feeds `chunks` one by one to a fresh decoder, as `handle_network_event_incoming_data` does for reads.
+pub fn decode_stream(mode: ProtocolMode, maximum_packet_size: u32, chunks: &[&[u8]]) -> DecodeOutcome {
+    let mut decoder = Decoder::new();
+    decoder.reset_for_new_connection();
+
+    let mut decoded_packets = VecDeque::new();
+    let mut error = None;
+
+    for (index, chunk) in chunks.iter().enumerate() {
+        let mut context = DecodingContext {
+            maximum_packet_size,
+            protocol_version: convert_protocol_mode_to_protocol_version(mode),
+            decoded_packets: &mut decoded_packets,
+        };
+
+        if let Err(e) = decoder.decode_bytes(chunk, &mut context) {
+            error = Some((e, index));
+            break;
+        }
+    }
+
+    DecodeOutcome {
+        packets: decoded_packets.into_iter().map(|p| mqtt_to_in_packet(*p)).collect(),
+        error,
+    }
+}
+
+// ------------------------------------------------------------------------------------------------
+// protocol engine facade
+// ------------------------------------------------------------------------------------------------
+
+pub struct EngineConfig {
+    pub connect_options: ConnectOptions,
+    pub offline_queue_policy: OfflineQueuePolicy,
+    pub ping_timeout: Duration,
+    pub outbound_alias_resolver_factory: Option<OutboundAliasResolverFactoryFn>,
+    pub protocol_mode: ProtocolMode,
+    pub post_reconnect_queue_drain_policy: PostReconnectQueueDrainPolicy,
+    pub max_interrupted_retries: Option<u32>,
+}
+
+#[derive(Debug)]
+pub enum Outcome {
+    Publish(PublishResult),
+    Subscribe(SubscribeResult),
+    Unsubscribe(UnsubscribeResult),
+}
+
+#[derive(Clone, Debug, Eq, PartialEq)]
+pub enum PacketEventView {
+    Connack(ConnackPacket),
+    Publish(PublishPacket),
+    Disconnect(DisconnectPacket),
+}
+
+#[derive(Copy, Clone, Debug, Eq, PartialEq, Hash)]
+pub enum EngineState {
+    Disconnected,
+    PendingConnack,
+    Connected,
+    PendingDisconnect,
+    Halted,
+}
+
+fn convert_engine_state(state: ProtocolStateType) -> EngineState {
+    match state {
+        ProtocolStateType::Disconnected => EngineState::Disconnected,
+        ProtocolStateType::PendingConnack => EngineState::PendingConnack,
+        ProtocolStateType::Connected => EngineState::Connected,
+        ProtocolStateType::PendingDisconnect => EngineState::PendingDisconnect,
+        ProtocolStateType::Halted => EngineState::Halted,
+    }
+}
+
+/// Plain copy of the engine's bookkeeping.  Operation ids are the tokens returned by `submit_*`.
+#[derive(Clone, Debug, Default, Eq, PartialEq)]
+pub struct Snapshot {
+    pub pending_write_completion: bool,
+    pub operations: Vec<u64>,
+    pub operation_ack_timeouts: usize,
+    pub user_operation_queue: Vec<u64>,
+    pub resubmit_operation_queue: Vec<u64>,
+    pub high_priority_operation_queue: Vec<u64>,
+    pub current_operation: Option<u64>,
+    pub qos2_incomplete_incoming_publishes: Vec<u16>,
+    pub allocated_packet_ids: Vec<(u16, u64)>,
+    pub pending_publish_operations: Vec<(u16, u64)>,
+    pub pending_non_publish_operations: Vec<(u16, u64)>,
+    pub pending_write_completion_operations: Vec<u64>,
+    pub next_packet_id: u16,
+    pub has_connected_successfully: bool,
+    pub next_ping_timepoint: Option<Duration>,
+    pub ping_timeout_timepoint: Option<Duration>,
+    pub connack_timeout_timepoint: Option<Duration>,
+    pub slow_start_ack_count: u32,
+    pub has_settings: bool,
+}
+
+type CompletionSink = Arc<Mutex<Vec<(u64, Outcome)>>>;
+
+pub struct Engine {
+    state: ProtocolState,
+    base: Instant,
+    sink: CompletionSink,
+    packet_events: VecDeque<PacketEvent>,
+}
+
+impl Engine {
+    pub fn new(config: EngineConfig) -> Engine {
+        let base = Instant::now();
+        let state_config = ProtocolStateConfig {
+            connect_options: config.connect_options,
+            base_timestamp: base,
+            offline_queue_policy: config.offline_queue_policy,
+            ping_timeout: config.ping_timeout,
+            outbound_alias_resolver: config.outbound_alias_resolver_factory.map(|f| { f() }),
+            protocol_mode: config.protocol_mode,
+            post_reconnect_queue_drain_policy: config.post_reconnect_queue_drain_policy,
+            max_interrupted_retries: config.max_interrupted_retries,
+        };
+
+        Engine {
+            state: ProtocolState::new(state_config),
+            base,
+            sink: Arc::new(Mutex::new(Vec::new())),
+            packet_events: VecDeque::new(),
+        }
+    }
+
+    fn at(&self, t: Duration) -> Instant { self.base + t }
+
+    fn offset(&self, timepoint: Instant) -> Duration { timepoint.saturating_duration_since(self.base) }
+
+    fn network_event(&mut self, t: Duration, event: NetworkEvent) -> GneissResult<()> {
+        let current_time = self.at(t);
+        let mut context = NetworkEventContext {
+            event,
+            current_time,
+            packet_events: &mut self.packet_events,
+        };
+
+        self.state.handle_network_event(&mut context)
+    }
+
+    pub fn open(&mut self, t: Duration, establishment_deadline: Duration) -> GneissResult<()> {
+        let establishment_timeout = self.at(establishment_deadline);
+        self.network_event(t, NetworkEvent::ConnectionOpened(ConnectionOpenedContext { establishment_timeout }))
+    }
+
+    pub fn close(&mut self, t: Duration) -> GneissResult<()> {
+        self.network_event(t, NetworkEvent::ConnectionClosed)
+    }
+
+    pub fn incoming(&mut self, t: Duration, data: &[u8]) -> GneissResult<()> {
+        self.network_event(t, NetworkEvent::IncomingData(data))
+    }
+
+    pub fn write_complete(&mut self, t: Duration) -> GneissResult<()> {
+        self.network_event(t, NetworkEvent::WriteCompletion)
+    }
+
+    pub fn service(&mut self, t: Duration, to_socket: &mut Vec<u8>) -> GneissResult<()> {
+        let mut context = ServiceContext {
+            to_socket,
+            current_time: self.at(t),
+        };
+
+        self.state.service(&mut context)
+    }
+
+    pub fn next_service(&mut self, t: Duration) -> Option<Duration> {
+        let now = self.at(t);
+        self.state.get_next_service_timepoint(&now).map(|timepoint| self.offset(timepoint))
+    }
+
+    pub fn submit_publish(&mut self, t: Duration, packet: PublishPacket, ack_timeout: Option<Duration>) -> u64 {
+        let token = self.state.next_operation_id;
+        let sink = self.sink.clone();
+        let options = PublishOptionsInternal {
+            options: PublishOptions { ack_timeout },
+            response_handler: Some(Box::new(move |result| {
+                sink.lock().unwrap().push((token, Outcome::Publish(result)));
+                Ok(())
+            })),
+        };
+
+        let context = UserEventContext {
+            event: UserEvent::Publish(Box::new(MqttPacket::Publish(packet)), options),
+            current_time: self.at(t),
+        };
+        self.state.handle_user_event(context);
+        token
+    }
+
+    pub fn submit_subscribe(&mut self, t: Duration, packet: SubscribePacket, ack_timeout: Option<Duration>) -> u64 {
+        let token = self.state.next_operation_id;
+        let sink = self.sink.clone();
+        let options = SubscribeOptionsInternal {
+            options: SubscribeOptions { ack_timeout },
+            response_handler: Some(Box::new(move |result| {
+                sink.lock().unwrap().push((token, Outcome::Subscribe(result)));
+                Ok(())
+            })),
+        };
+
+        let context = UserEventContext {
+            event: UserEvent::Subscribe(Box::new(MqttPacket::Subscribe(packet)), options),
+            current_time: self.at(t),
+        };
+        self.state.handle_user_event(context);
+        token
+    }
+
+    pub fn submit_unsubscribe(&mut self, t: Duration, packet: UnsubscribePacket, ack_timeout: Option<Duration>) -> u64 {
+        let token = self.state.next_operation_id;
+        let sink = self.sink.clone();
+        let options = UnsubscribeOptionsInternal {
+            options: UnsubscribeOptions { ack_timeout },
+            response_handler: Some(Box::new(move |result| {
+                sink.lock().unwrap().push((token, Outcome::Unsubscribe(result)));
+                Ok(())
+            })),
+        };
+
+        let context = UserEventContext {
+            event: UserEvent::Unsubscribe(Box::new(MqttPacket::Unsubscribe(packet)), options),
+            current_time: self.at(t),
+        };
+        self.state.handle_user_event(context);
+        token
+    }
+
+    pub fn submit_disconnect(&mut self, t: Duration, packet: DisconnectPacket) {
+        let context = UserEventContext {
+            event: UserEvent::Disconnect(Box::new(MqttPacket::Disconnect(packet))),
+            current_time: self.at(t),
+        };
+        self.state.handle_user_event(context);
+    }
+
+    pub fn reset(&mut self, t: Duration) {
+        let now = self.at(t);
+        self.state.reset(&now);
+    }
+
+    pub fn drain_completions(&mut self) -> Vec<(u64, Outcome)> {
+        std::mem::take(&mut *self.sink.lock().unwrap())
+    }
+
+    pub fn drain_packet_events(&mut self) -> Vec<PacketEventView> {
+        self.packet_events.drain(..).map(|event| {
+            match event {
+                PacketEvent::Connack(p) => PacketEventView::Connack(p),
+                PacketEvent::Publish(p) => PacketEventView::Publish(p),
+                PacketEvent::Disconnect(p) => PacketEventView::Disconnect(p),
+            }
+        }).collect()
+    }
+
+    pub fn state(&self) -> EngineState { convert_engine_state(self.state.state()) }
+
+    pub fn negotiated_settings(&self) -> Option<NegotiatedSettings> { self.state.get_negotiated_settings().clone() }
+
+    /// Positions the rotating packet id cursor; any sufficiently long history reaches every position.
+    pub fn seek_packet_id(&mut self, next_packet_id: u16) {
+        self.state.next_packet_id = if next_packet_id == 0 { 1 } else { next_packet_id };
+    }
+
+    pub fn snapshot(&self) -> Snapshot {
+        let s = &self.state;
+        let mut operations: Vec<u64> = s.operations.keys().copied().collect();
+        operations.sort();
+        let mut qos2: Vec<u16> = s.qos2_incomplete_incoming_publishes.iter().copied().collect();
+        qos2.sort();
+        let sorted_pairs = |map: &std::collections::HashMap<u16, u64>| {
+            let mut pairs: Vec<(u16, u64)> = map.iter().map(|(k, v)| (*k, *v)).collect();
+            pairs.sort();
+            pairs
+        };
+
+        Snapshot {
+            pending_write_completion: s.pending_write_completion,
+            operations,
+            operation_ack_timeouts: s.operation_ack_timeouts.len(),
+            user_operation_queue: s.user_operation_queue.iter().copied().collect(),
+            resubmit_operation_queue: s.resubmit_operation_queue.iter().copied().collect(),
+            high_priority_operation_queue: s.high_priority_operation_queue.iter().copied().collect(),
+            current_operation: s.current_operation,
+            qos2_incomplete_incoming_publishes: qos2,
+            allocated_packet_ids: sorted_pairs(&s.allocated_packet_ids),
+            pending_publish_operations: sorted_pairs(&s.pending_publish_operations),
+            pending_non_publish_operations: sorted_pairs(&s.pending_non_publish_operations),
+            pending_write_completion_operations: s.pending_write_completion_operations.iter().copied().collect(),
+            next_packet_id: s.next_packet_id,
+            has_connected_successfully: s.has_connected_successfully,
+            next_ping_timepoint: s.next_ping_timepoint.map(|t| self.offset(t)),
+            ping_timeout_timepoint: s.ping_timeout_timepoint.map(|t| self.offset(t)),
+            connack_timeout_timepoint: s.connack_timeout_timepoint.map(|t| self.offset(t)),
+            slow_start_ack_count: s.slow_start_ack_count,
+            has_settings: s.current_settings.is_some(),
+        }
+    }
+}
+
+// ------------------------------------------------------------------------------------------------
+// client state machine facade
+// ------------------------------------------------------------------------------------------------
+
+#[derive(Copy, Clone, Debug, Eq, PartialEq, Hash)]
+pub enum ClientStateView {
+    Stopped,
+    Connecting,
+    Connected,
+    PendingReconnect,
+    Shutdown,
+}
+
+fn convert_client_state(state: ClientImplState) -> ClientStateView {
+    match state {
+        ClientImplState::Stopped => ClientStateView::Stopped,
+        ClientImplState::Connecting => ClientStateView::Connecting,
+        ClientImplState::Connected => ClientStateView::Connected,
+        ClientImplState::PendingReconnect => ClientStateView::PendingReconnect,
+        ClientImplState::Shutdown => ClientStateView::Shutdown,
+    }
+}
+
+fn convert_client_state_view(state: ClientStateView) -> ClientImplState {
+    match state {
+        ClientStateView::Stopped => ClientImplState::Stopped,
+        ClientStateView::Connecting => ClientImplState::Connecting,
+        ClientStateView::Connected => ClientImplState::Connected,
+        ClientStateView::PendingReconnect => ClientImplState::PendingReconnect,
+        ClientStateView::Shutdown => ClientImplState::Shutdown,
+    }
+}
+
+#[derive(Clone, Debug, Eq, PartialEq, Hash)]
+pub enum ClientEventView {
+    ConnectionAttempt,
+    ConnectionSuccess,
+    ConnectionFailure,
+    Disconnection,
+    Stopped,
+    PublishReceived,
+}
+
+pub enum ClientOp {
+    Start,
+    Stop(Option<DisconnectPacket>),
+    Close,
+    Publish(PublishPacket, Option<Duration>),
+    Subscribe(SubscribePacket, Option<Duration>),
+    Unsubscribe(UnsubscribePacket, Option<Duration>),
+}
+
+pub struct ClientSim {
+    client: MqttClientImpl,
+    events: Arc<Mutex<Vec<ClientEventView>>>,
+    sink: CompletionSink,
+    next_token: u64,
+}
+
+impl ClientSim {
+    pub fn new(client_config: MqttClientOptions, connect_config: ConnectOptions) -> ClientSim {
+        let callback_spawner: CallbackSpawnerFunction = Box::new(|event, callback| { (callback)(event) });
+
+        ClientSim {
+            client: MqttClientImpl::new(client_config, connect_config, callback_spawner),
+            events: Arc::new(Mutex::new(Vec::new())),
+            sink: Arc::new(Mutex::new(Vec::new())),
+            next_token: 1,
+        }
+    }
+
+    fn make_listener(&self) -> ClientEventListener {
+        let events = self.events.clone();
+        Arc::new(move |event: Arc<ClientEvent>| {
+            let view = match &*event {
+                ClientEvent::ConnectionAttempt(_) => ClientEventView::ConnectionAttempt,
+                ClientEvent::ConnectionSuccess(_) => ClientEventView::ConnectionSuccess,
+                ClientEvent::ConnectionFailure(_) => ClientEventView::ConnectionFailure,
+                ClientEvent::Disconnection(_) => ClientEventView::Disconnection,
+                ClientEvent::Stopped(_) => ClientEventView::Stopped,
+                ClientEvent::PublishReceived(_) => ClientEventView::PublishReceived,
+            };
+            events.lock().unwrap().push(view);
+        })
+    }
+
+    /// `handle_incoming_operation`, as every driver loop does when its operation channel yields.
+    pub fn op(&mut self, op: ClientOp) -> Option<u64> {
+        let token = self.next_token;
+        let sink = self.sink.clone();
+        let (options, result) = match op {
+            ClientOp::Start => { (OperationOptions::Start(Some(self.make_listener())), None) }
+            ClientOp::Stop(disconnect) => {
+                (OperationOptions::Stop(StopOptionsInternal { disconnect: disconnect.map(|d| Box::new(MqttPacket::Disconnect(d))) }), None)
+            }
+            ClientOp::Close => { (OperationOptions::Shutdown(), None) }
+            ClientOp::Publish(packet, ack_timeout) => {
+                let internal = PublishOptionsInternal {
+                    options: PublishOptions { ack_timeout },
+                    response_handler: Some(Box::new(move |result| {
+                        sink.lock().unwrap().push((token, Outcome::Publish(result)));
+                        Ok(())
+                    })),
+                };
+                (OperationOptions::Publish(Box::new(MqttPacket::Publish(packet)), internal), Some(token))
+            }
+            ClientOp::Subscribe(packet, ack_timeout) => {
+                let internal = SubscribeOptionsInternal {
+                    options: SubscribeOptions { ack_timeout },
+                    response_handler: Some(Box::new(move |result| {
+                        sink.lock().unwrap().push((token, Outcome::Subscribe(result)));
+                        Ok(())
+                    })),
+                };
+                (OperationOptions::Subscribe(Box::new(MqttPacket::Subscribe(packet)), internal), Some(token))
+            }
+            ClientOp::Unsubscribe(packet, ack_timeout) => {
+                let internal = UnsubscribeOptionsInternal {
+                    options: UnsubscribeOptions { ack_timeout },
+                    response_handler: Some(Box::new(move |result| {
+                        sink.lock().unwrap().push((token, Outcome::Unsubscribe(result)));
+                        Ok(())
+                    })),
+                };
+                (OperationOptions::Unsubscribe(Box::new(MqttPacket::Unsubscribe(packet)), internal), Some(token))
+            }
+        };
+
+        if result.is_some() {
+            self.next_token += 1;
+        }
+
+        self.client.handle_incoming_operation(options);
+        result
+    }
+
+    pub fn compute_transition(&self) -> Option<ClientStateView> {
+        self.client.compute_optional_state_transition().map(convert_client_state)
+    }
+
+    pub fn transition_to(&mut self, state: ClientStateView) -> GneissResult<()> {
+        self.client.transition_to_state(convert_client_state_view(state))
+    }
+
+    pub fn incoming_bytes(&mut self, bytes: &[u8]) -> GneissResult<()> { self.client.handle_incoming_bytes(bytes) }
+
+    pub fn write_completion(&mut self) -> GneissResult<()> { self.client.handle_write_completion() }
+
+    pub fn service(&mut self, outbound: &mut Vec<u8>) -> GneissResult<()> { self.client.handle_service(outbound) }
+
+    /// None: no service wanted; Some(d): service wanted after `d` (zero = now).
+    pub fn next_service_in(&mut self) -> Option<Duration> {
+        self.client.get_next_connected_service_time().map(|t| t.saturating_duration_since(Instant::now()))
+    }
+
+    pub fn apply_error(&mut self, error: GneissError) { self.client.apply_error(error) }
+
+    pub fn apply_connection_closed_error(&mut self, message: &str) {
+        self.client.apply_error(GneissError::new_connection_closed(message.to_string()))
+    }
+
+    pub fn apply_connection_establishment_error(&mut self, message: &str) {
+        self.client.apply_error(GneissError::new_connection_establishment_failure(message.to_string()))
+    }
+
+    pub fn advance_reconnect_period(&mut self) -> Duration { self.client.advance_reconnect_period() }
+
+    pub fn connect_timeout(&self) -> Duration { *self.client.connect_timeout() }
+
+    pub fn current_state(&self) -> ClientStateView { convert_client_state(self.client.get_current_state()) }
+
+    pub fn protocol_state(&self) -> EngineState { convert_engine_state(self.client.get_protocol_state()) }
+
+    pub fn drain_events(&mut self) -> Vec<ClientEventView> { std::mem::take(&mut *self.events.lock().unwrap()) }
+
+    pub fn drain_completions(&mut self) -> Vec<(u64, Outcome)> { std::mem::take(&mut *self.sink.lock().unwrap()) }
+}
+
+// ------------------------------------------------------------------------------------------------
+// websocket adapter
+// ------------------------------------------------------------------------------------------------
+
+#[cfg(feature = "threaded-websockets")]
+pub use crate::client::synchronous::threaded::verif_wrap_websocket;
